@@ -387,11 +387,16 @@ def mc_buf(tier, witness=None):
 
 
 def mc_db(tier, d8=False):
-    q = [_mc("MCDb.tla", "MCDb_q.cfg", workers=12)]
+    # AbyDb: the contract (one state per name); AbyReg: the design under it (buffered instances, five registries):
+    # one instance per name as long as every getter consults its registry and the signatures are distinct
+    q = [_mc("MCDb.tla", "MCDb_q.cfg", workers=12), _mc("MCReg.tla", "MCReg_q.cfg", workers=8),
+         _mc("MCReg.tla", "MCReg_nolookup.cfg", workers=2, witness="OneInstance")]
     if d8:
         q.append(_mc("MCDb.tla", "MCDb_d8.cfg", workers=2, witness="TypeSafe"))
+        q.append(_mc("MCReg.tla", "MCReg_d8.cfg", workers=2, witness="OneInstance"))
     if tier == "thorough":
         q.append(_mc("MCDb.tla", "MCDb_t.cfg", workers=12, xmx="16g", timeout=3600))
+        q.append(_mc("MCReg.tla", "MCReg_t.cfg", workers=12, xmx="16g", timeout=3600))
     return q
 
 
